@@ -119,6 +119,10 @@ def gen_plan(seed, tier="quick"):
         # history: an earlier destripe call in the same process on a recording of ANOTHER probe type (other ADC sampling
         # delays) with the same channel count and batch size
         "prelude": (r.choice([f for f in ("NP1", "NP21", "NP24") if f != fixture]) if r.random() < 0.2 else None),
+        # the process environment of a cluster job / a constrained machine: resource hints that libraries like to read
+        "env": ({k: v for k, v in (("SLURM_CPUS_PER_TASK", r.choice(["1", "2", "3"])), ("SLURM_JOB_CPUS_PER_NODE", r.choice(["2", "4"])),
+                                   ("LOKY_MAX_CPU_COUNT", r.choice(["1", "2"])), ("OMP_NUM_THREADS", "1"), ("NUMBA_NUM_THREADS", "1"))
+                 if r.random() < 0.6} if r.random() < 0.15 else None),
         "p_switch": r.choice([0.0, 0.0, 0.01, 0.05, 0.2, 0.5, 1.0]),
         "victim": r.choice([None, None, 0, nproc - 1, r.randrange(nproc)]),
         "order": r.choice([None, None, "reverse", "shuffle"]),
@@ -221,6 +225,8 @@ def _sim_run(plan, binf, out, nproc, append, W, schedule):
                     victim=schedule.get("victim"), order=order, io_mode=bool(schedule.get("io_mode")), delay=schedule.get("delay"))
     SIM.active = True
     err = None
+    saved_env = {k: os.environ.get(k) for k in (plan.get("env") or {})}
+    os.environ.update(plan.get("env") or {})
     try:
         _destripe_call(plan, binf, out, nproc, append, W)
     except Exception as e:
@@ -228,6 +234,11 @@ def _sim_run(plan, binf, out, nproc, append, W, schedule):
         err = (e, traceback.format_exc())
     finally:
         SIM.active = False
+        for k, v in saved_env.items():
+            if v is None:
+                os.environ.pop(k, None)
+            else:
+                os.environ[k] = v
     return {"trace": list(SCHED.trace), "extents": SIM.extents, "events": SIM.events, "err": err,
             "tasks": list(SCHED.task_log), "io_counts": dict(SCHED.io_counts), "io_sites": {k: list(v) for k, v in SCHED.io_sites.items()}}
 
@@ -440,6 +451,8 @@ def _run(plan, base):
     nbatches = max(0, -(-(ns - plan["nbatch"]) // stride)) + 1
     stats["config"][f"nproc={plan['nproc']}"] = 1
     stats["config"]["kfilt" if _k_filter(plan, W) else "car"] = 1
+    if plan.get("env"):
+        stats["config"]["resource_env_vars_set"] = 1
     for key in ("append", "drop_sync", "qc_path", "rerun", "mixed_gains", "prelude"):
         if plan.get(key):
             stats["config"][key] = 1
@@ -763,7 +776,7 @@ def _check_reference(plan, O, out, offset, nc_out, fs, rec, sigbase, W):
 
 
 def shrink_candidates(plan):
-    for key, val in (("prelude", None), ("append", False), ("delay", None), ("io_mode", False), ("out_dtype", "int16"), ("mixed_gains", False), ("rerun_killed", None), ("rerun", False), ("form", "bin"), ("qc_path", False), ("saturate", []), ("wrot", "none"), ("reject", False), ("ns2add", 0),
+    for key, val in (("env", None), ("prelude", None), ("append", False), ("delay", None), ("io_mode", False), ("out_dtype", "int16"), ("mixed_gains", False), ("rerun_killed", None), ("rerun", False), ("form", "bin"), ("qc_path", False), ("saturate", []), ("wrot", "none"), ("reject", False), ("ns2add", 0),
                      ("drop_sync", False), ("default_k", False), ("order", None), ("victim", None), ("p_switch", 0.0),
                      ("k_filter", False)):
         if plan.get(key) != val:
